@@ -798,6 +798,9 @@ def deep_programs(tier):
     m = 1000 if big else 300          # (beyond 255 and 256 links)
     P.append(('chain:list-%d-print' % m, 'let l = null; let i = 0; while i < %d do begin l <- object begin let next = l; let v = i end; i <- i + 1 end; print("~\\n", l)' % m))
     P.append(('chain:parents-%d-dispatch' % m, 'let o = 5; let i = 0; while i < %d do begin o <- object extends o begin end; i <- i + 1 end; print("~\\n", o + 1); print("~\\n", o.nosuch(1))' % m))
+    P.append(('cycle:after-%d-acyclic-links' % m, 'let last = object begin let next = null; let v = 0 - 1 end; last.next <- last; let l = last; let i = 0; while i < %d do begin l <- object begin let next = l; let v = i end; i <- i + 1 end; '
+              'print("built\\n"); print("~\\n", l); print("never\\n")' % m))
+    P.append(('cycle:two-cycle-after-%d-array-links' % m, 'let a = array(1, null); let b = array(1, a); a[0] <- b; let l = a; let i = 0; while i < %d do begin l <- array(2, l); i <- i + 1 end; print("built\\n"); print("~\\n", l); print("never\\n")' % m))
     P.append(('chain:nested-arrays-%d-print' % m, 'let a = array(1, 0); let i = 0; while i < %d do begin a <- array(1, a); i <- i + 1 end; print("~\\n", a)' % m))
     d = 3000 if big else 800
     P.append(('depth:recursion-%d' % d, 'function d(n) -> if n == 0 then 0 else 1 + d(n - 1); print("~\\n", d(%d))' % d))
@@ -809,7 +812,10 @@ def deep_programs(tier):
     P.append(('nest:calls-%d' % k, 'function f(a) -> a + 1; print("~\\n", ' + 'f(' * k + '0' + ')' * k + ')'))
     # large scale: beyond what the reference semantics can execute inside TLC; judged by the termination rules only
     L = []
-    EXP = {'large:recursion-100000': (True, b'100000\n'), 'large:ring-1000': (False, b'built\n'), 'large:parents-1000-dispatch': (False, b'6\n'), 'large:parents-70000-dispatch': (False, b'6\n'),
+    L = []
+    L.append(('large:cycle-after-1000-acyclic-links', 'let last = object begin let next = null; let v = 0 - 1 end; last.next <- last; let l = last; let i = 0; while i < 1000 do begin l <- object begin let next = l; let v = i end; i <- i + 1 end; '
+              'print("built\\n"); print("~\\n", l); print("never\\n")'))
+    EXP = {'large:cycle-after-1000-acyclic-links': (False, b'built\n'), 'large:recursion-100000': (True, b'100000\n'), 'large:ring-1000': (False, b'built\n'), 'large:parents-1000-dispatch': (False, b'6\n'), 'large:parents-70000-dispatch': (False, b'6\n'),
            'large:cycle-after-20000-allocations': (False, b'built\n'), 'large:cycle-through-object-after-5000-arrays': (False, b'built\n'), 'large:blocks-200': (True, b'deep\n'),
            'large:operators-200': (True, b'201\n'), 'large:mutual-cycle-1000': (False, b'built\n'), 'large:method-found-after-1000-parents': (True, b'7 1000\n')}
     L.append(('large:recursion-100000', 'function d(n) -> if n == 0 then 0 else 1 + d(n - 1); print("~\\n", d(100000))'))
